@@ -49,7 +49,7 @@ def programs_for(ctx):
     # a stream (mostly) inside the proved fragment (Frag.frag2): one crossing of plain factors, free factors,
     # Repeat / MinimumTrials for several rounds and a leftover round, exclusions and constraints by rejection,
     # every third one with weighted levels / a crossing weight; some MultiCrossBlocks (further crossings by rejection);
-    # every fourth one with within-trial derived factors
+    # every fourth one with within-trial derived factors, every eighth one a Nest
     nfrag = 40 if ctx.quick else 300
     j = 0
     tries = 0
@@ -61,6 +61,9 @@ def programs_for(ctx):
                                        features={"derived": True, "wtype": "within", "weighted_p": 0.0})
             if p is not None and not any(f["kind"] == "derived" for f in p["factors"]):
                 continue
+        elif j % 8 == 5:
+            # some nested designs (a sustained outer crossing, enforced by rejection)
+            p = gen_design.gen_program(ctx.rng, 3000, shape="nest", features={"derived": False, "weighted_p": 0.0})
         else:
             p = gen_design.gen_program(ctx.rng, 3000, shape=ctx.rng.choice(["cross", "cross", "repeat", "multi"]),
                                        features={"derived": False, "weighted_p": 0.5 if j % 3 == 2 else 0.0})
@@ -379,7 +382,7 @@ def run(ctx, res):
         "generated_in_frag1": gen_thm.get("frag1", 0), "generated_in_frag0": gen_thm.get("frag0", 0),
         "share_of_generated_in_frag2": share("frag2"), "share_of_generated_in_frag1": share("frag1"),
         "share_of_generated_in_frag0": share("frag0"),
-        "note": "frag2 = Frag.frag2 (Properties/C04-C07 *_frag2; weights, further crossings, implied factors, within-trial derived factors in the sampled crossing), it contains Frag.frag1 (the *_partial theorems) which "
+        "note": "frag2 = Frag.frag2 (Properties/C04-C07 *_frag2; weights, further crossings, implied factors, within-trial derived factors in the sampled crossing, sustained further crossings), it contains Frag.frag1 (the *_partial theorems) which "
                 "contains the first fragment Frag.frag0; shares are over the gen_design.gen_program stream only (programs the "
                 "constructors reject count as outside); for the designs inside the fragment the executable statements of the "
                 "theorems - and the side condition FragSem.enumerates_b of the frag2 completeness / count theorems - were also "
